@@ -127,7 +127,7 @@ def register(props):
                 "a key, retype a key, duplicate an entry / item, retype a value (nil, string, number, bool, list, map), re-point a "
                 "string at every other string seen under the same key or a fresh one, flip booleans, boundary numbers — complete at "
                 "the link-sensitive places (type_id, id, root, default, pattern, namespace) and a seeded 30 % sample elsewhere in the quick "
-                "tier, complete in the thorough tier; sampled double mutations; grammar-free random trees; the hand-written D30/D32 "
+                "tier, complete in the thorough tier; a quarter of the unit definitions of the descriptions carry, in each of the eight name positions (base unit / multiplier, short / long, singular / plural), fragments that are special to a regular-expression engine: not valid expressions on their own (unbalanced group / class, dangling repetition, trailing backslash, unknown class) or valid with another meaning (. | ^ $ (s) [ab] a*), and the re-pointing mutation moves them between the positions; sampled double mutations; grammar-free random trees; the hand-written D30/D32 "
                 "witnesses, each data schema of them placed as an output, a signal handler, a signal emitter, and as a handler / an emitter of "
                 "a step whose handler and emitter maps SHARE a key; a third of the generated steps emit signals under the very keys under "
                 "which they handle signals; the namespace of every reference is re-pointed at every other namespace seen and a fresh "
